@@ -7,17 +7,6 @@ import Proofs.Marks
 namespace PM.RoundTrip
 open PM PM.Dom PM.FromDom PM.DomWalk
 
-/-- what the mark bookkeeping never touches -/
-structure Stable (cx cx' : NodeCtx) : Prop where
-  attrs : cx'.attrs = cx.attrs
-  marks : cx'.marks = cx.marks
-  opts : cx'.opts = cx.opts
-  uid : cx'.uid = cx.uid
-
-theorem Stable.refl (cx : NodeCtx) : Stable cx cx := ⟨rfl, rfl, rfl, rfl⟩
-theorem Stable.trans {a b c : NodeCtx} (h1 : Stable a b) (h2 : Stable b c) : Stable a c :=
-  ⟨h2.attrs.trans h1.attrs, h2.marks.trans h1.marks, h2.opts.trans h1.opts, h2.uid.trans h1.uid⟩
-
 /-- `addDom_markElem` carrying `Stable` -/
 theorem addDom_markElem' (R : RParser) (w : WState) (base : List NodeCtx) (cx : NodeCtx) (c c2 : List Node)
     (t : TypeId) (q q2 : Nat) (pa pp : List TMark) (m : Mark) (tag : String) (attrs : List (String × List Char))
@@ -303,12 +292,11 @@ theorem walk_tree (R : RParser) (D : ToDom) : ∀ (T : MTree) (w : WState) (base
     (pa pp : List TMark) (p : Marks),
     Inv R.P.S w base cx [] c → MarkSt cx t q pa pp → cx.opts = opts → (pa ++ pp).map (·.2) = p →
     (∀ m ∈ pp, (R.P.S.nodeType t).allowsMarkType m.2.ty = true) → treeOk p T = true →
-    (R.P.S.nodeType t).inlineContent = true →
     kidsOk R D opts t prev (flatT T) = true → (∀ n ∈ flatT T, LeafHyp R t n) →
     (R.P.S.dfa t).run q (R.P.S.types (flatT T)) = some q' → PrevOk prev c prevBr →
     ∃ w' cx', addDom R.P ptag prevBr (treeDom R D T) w = .ok w' ∧ Inv R.P.S w' base cx' [] (c ++ flatT T) ∧
       MarkSt cx' t q' (pa ++ pp) [] ∧ Stable cx cx'
-  | .leaf n, w, base, cx, c, t, q, q', opts, prev, prevBr, ptag, pa, pp, p, hi, hs, ho, hpath, hal, hok, hinl, hko, hlh, hrun, hprev => by
+  | .leaf n, w, base, cx, c, t, q, q', opts, prev, prevBr, ptag, pa, pp, p, hi, hs, ho, hpath, hal, hok, hko, hlh, hrun, hprev => by
     have hn := hlh n (by simp [flatT])
     have hmk : n.marks = p := by simpa [treeOk] using hok
     have hch : Chain R.P.S ((pa ++ pp).map (·.2)) := by rw [hpath, ← hmk]; exact chain_of_canon _ _ hn.canon
@@ -327,6 +315,11 @@ theorem walk_tree (R : RParser) (D : ToDom) : ∀ (T : MTree) (w : WState) (base
       | text s ms =>
         simp only [Node.marks] at hmk
         subst ho
+        have hinl : (R.P.S.nodeType t).inlineContent = true := by
+          have := hko.1.2
+          rw [nodeOk] at this
+          simp only [Bool.and_eq_true] at this
+          exact this.1
         obtain ⟨w', cx', hadd, hi', hs', hst'⟩ := addTextNode_marks R.P w base cx c t q q1 pa pp s prev (some ptag) prevBr hi hs hinl
           hko.1.1 (hdrop_of cx prev s prevBr hko.1.1 (by rw [← hc]; exact hprev)) hch hal hmt
         refine ⟨w', cx', by rw [treeDom, domOf, addDom]; exact hadd, ?_, hs', hst'⟩
@@ -350,7 +343,7 @@ theorem walk_tree (R : RParser) (D : ToDom) : ∀ (T : MTree) (w : WState) (base
           · simp only [treeDom, domOf, hd, elemDom]; exact hadd
           · rw [flatT, hmk, ← hpath]; exact hi'
       | elem te ae me ke => have := hn.leaf; simp [Node.isLeaf] at this
-  | .wrap m kids, w, base, cx, c, t, q, q', opts, prev, prevBr, ptag, pa, pp, p, hi, hs, ho, hpath, hal, hok, hinl, hko, hlh, hrun, hprev => by
+  | .wrap m kids, w, base, cx, c, t, q, q', opts, prev, prevBr, ptag, pa, pp, p, hi, hs, ho, hpath, hal, hok, hko, hlh, hrun, hprev => by
     rw [treeOk] at hok
     simp only [Bool.and_eq_true] at hok
     rw [flatT] at hko hlh hrun
@@ -374,7 +367,7 @@ theorem walk_tree (R : RParser) (D : ToDom) : ∀ (T : MTree) (w : WState) (base
             rcases List.mem_append.1 hx with hx | hx
             · exact hal x hx
             · simp only [List.mem_singleton] at hx; subst hx; rw [hmk]; exact hallm)
-          hok.1 hinl hko hlh hrun ⟨hprev.1, fun h => by cases h⟩
+          hok.1 hko hlh hrun ⟨hprev.1, fun h => by cases h⟩
         simp only [hok.2, if_true] at hs2
         exact ⟨w2, cx2, hall, hi2, by simpa [List.append_assoc] using hs2,
           ⟨hst2.attrs, hst2.marks, hst2.opts, hst2.uid⟩⟩)
@@ -386,16 +379,15 @@ theorem walk_forest (R : RParser) (D : ToDom) : ∀ (F : List MTree) (w : WState
     (pa pp : List TMark) (p : Marks),
     Inv R.P.S w base cx [] c → MarkSt cx t q pa pp → cx.opts = opts → (pa ++ pp).map (·.2) = p →
     (∀ m ∈ pp, (R.P.S.nodeType t).allowsMarkType m.2.ty = true) → forestOk p F = true →
-    (R.P.S.nodeType t).inlineContent = true →
     kidsOk R D opts t prev (flatF F) = true → (∀ n ∈ flatF F, LeafHyp R t n) →
     (R.P.S.dfa t).run q (R.P.S.types (flatF F)) = some qe → PrevOk prev c prevBr →
     ∃ w' cx', addAll R.P ptag (forestDom R D F) prevBr w = .ok w' ∧ Inv R.P.S w' base cx' [] (c ++ flatF F) ∧
       MarkSt cx' t qe (if hasLeafF F then pa ++ pp else pa) (if hasLeafF F then [] else pp) ∧ Stable cx cx'
-  | [], w, base, cx, c, t, q, qe, opts, prev, prevBr, ptag, pa, pp, p, hi, hs, _, _, _, _, _, _, _, hrun, _ => by
+  | [], w, base, cx, c, t, q, qe, opts, prev, prevBr, ptag, pa, pp, p, hi, hs, _, _, _, _, _, _, hrun, _ => by
     simp only [flatF, Schema.types, List.map_nil, Dfa.run, Option.some.injEq] at hrun
     subst hrun
     exact ⟨w, cx, by rw [forestDom, addAll], by simpa [flatF] using hi, by simpa [hasLeafF] using hs, Stable.refl cx⟩
-  | T :: Ts, w, base, cx, c, t, q, qe, opts, prev, prevBr, ptag, pa, pp, p, hi, hs, ho, hpath, hal, hok, hinl, hko, hlh, hrun, hprev => by
+  | T :: Ts, w, base, cx, c, t, q, qe, opts, prev, prevBr, ptag, pa, pp, p, hi, hs, ho, hpath, hal, hok, hko, hlh, hrun, hprev => by
     rw [forestOk] at hok
     simp only [Bool.and_eq_true] at hok
     rw [flatF] at hko hlh hrun
@@ -409,7 +401,7 @@ theorem walk_forest (R : RParser) (D : ToDom) : ∀ (F : List MTree) (w : WState
       rw [hr1] at hrun
       simp only at hrun
       obtain ⟨w1, cx1, hadd, hi1, hs1, hst1⟩ := walk_tree R D T w base cx c t q q1 opts prev prevBr ptag pa pp p hi hs ho hpath hal hok.1
-        hinl hko.1 (fun n hn => hlh n (List.mem_append_left _ hn)) hr1 hprev
+        hko.1 (fun n hn => hlh n (List.mem_append_left _ hn)) hr1 hprev
       have hleafT := treeOk_hasLeaf p T hok.1
       have hprev1 : PrevOk (lastPrev R D prev (flatT T)) (c ++ flatT T) (treeDom R D T).isBr := by
         refine ⟨lastPrev_getLast R D (flatT T) prev c hprev.1, ?_⟩
@@ -433,7 +425,7 @@ theorem walk_forest (R : RParser) (D : ToDom) : ∀ (F : List MTree) (w : WState
           simp only [treeDom, markSpec_of D m name sattrs hd, elemDom, DNode.isBr, hbr] at hb
           cases hb
       obtain ⟨w2, cx2, hall, hi2, hs2, hst2⟩ := walk_forest R D Ts w1 base cx1 (c ++ flatT T) t q1 qe opts _ _ ptag (pa ++ pp) [] p
-        hi1 hs1 (by rw [hst1.opts]; exact ho) (by simpa using hpath) (fun x hx => by cases hx) hok.2 hinl hko.2
+        hi1 hs1 (by rw [hst1.opts]; exact ho) (by simpa using hpath) (fun x hx => by cases hx) hok.2 hko.2
         (fun n hn => hlh n (List.mem_append_right _ hn)) hrun hprev1
       refine ⟨w2, cx2, ?_, by rw [flatF]; simpa [List.append_assoc] using hi2, ?_, hst1.trans hst2⟩
       · rw [forestDom, addAll]
